@@ -168,6 +168,8 @@ fn dec_case(pk: &Pk, bytes: &[u8], expect: Option<(&[V], usize)>, class: &str) -
         (Some((vals, _)), Err(e)) => Some(format!("round trip failed with {e} for {}", vals_tok(pk, vals))),
         // hand-made wire images that are not a legal encoding must be refused, never mapped to some value
         (None, Ok(_)) if class == "dec-bad-enum" => Some(format!("an ordinal outside the enumeration was accepted: {observed}")),
+        // every field is fixed-size or length-prefixed: a strict prefix of a packet's bytes always ends inside a field
+        (None, Ok(_)) if class == "dec-truncated" => Some(format!("a strict prefix of the packet's bytes was decoded as a complete packet: {observed}")),
         (None, Ok(_)) if class == "dec-bad-utf8" => Some(format!("a string that is not valid UTF-8 was accepted: {observed}")),
         (None, _) => None,
     };
